@@ -74,9 +74,12 @@ def check_rmul(run, f, rule='R12.rmul', field='g'):
 def repr_tables(f):
     """(prefix table {p: str}, letter table {(x,z): str}) of a __repr__ that builds `txt`."""
     pref = {}
+    from ..names import return_names
+    rn = return_names(f)
+    TXT = rn[0] if len(rn) == 1 and rn[0] else 'txt'
     for p in range(4):
         sts = tables.reached(f, {}, kinds=(ast.Assign,), attr=_attr_env({'self.p': p, 'self.N': 1}))
-        vals = [st.value.value for st, ctx, _ in sts if isinstance(st.targets[0], ast.Name) and st.targets[0].id == 'txt'
+        vals = [st.value.value for st, ctx, _ in sts if isinstance(st.targets[0], ast.Name) and st.targets[0].id == TXT
                 and isinstance(st.value, ast.Constant) and isinstance(st.value.value, str)]
         pref[p] = vals[-1] if vals else None
     letters = {}
@@ -96,7 +99,7 @@ def repr_tables(f):
         for x in (0, 1):
             for z in (0, 1):
                 sts = tables.reached(f, {inv['x']: x, inv['z']: z}, kinds=(ast.AugAssign,))
-                vals = [st.value.value for st, ctx, _ in sts if isinstance(st.target, ast.Name) and st.target.id == 'txt'
+                vals = [st.value.value for st, ctx, _ in sts if isinstance(st.target, ast.Name) and st.target.id == TXT
                         and isinstance(st.value, ast.Constant)]
                 letters[(x, z)] = vals[0] if len(vals) == 1 else None
     return pref, letters
@@ -150,6 +153,9 @@ def reader_table(f):
     if loop is None:
         return None
     ivar, mvar = [e.id for e in loop.target.elts]
+    roles = reader_roles(f)
+    H = roles.get('h', 'h')
+    canon = {roles.get('p', 'p'): 'p', H: 'h'}
     for tok in tokens:
         effs = []
         for st, ctx in walk(f.node):
@@ -162,16 +168,16 @@ def reader_table(f):
                 if isinstance(st, ast.Continue):
                     effs.append(('skip',))
                 elif isinstance(st, ast.Assign) and isinstance(st.targets[0], ast.Name):
-                    effs.append(('set', st.targets[0].id, ev(st.value, {}) if isinstance(st.value, ast.Constant) else norm(st.value)))
+                    effs.append(('set', canon.get(st.targets[0].id, st.targets[0].id), ev(st.value, {}) if isinstance(st.value, ast.Constant) else norm(st.value)))
                 elif isinstance(st, ast.AugAssign) and isinstance(st.target, ast.Name):
-                    effs.append(('add', st.target.id, ev(st.value, {}) if isinstance(st.value, ast.Constant) else norm(st.value)))
+                    effs.append(('add', canon.get(st.target.id, st.target.id), ev(st.value, {}) if isinstance(st.value, ast.Constant) else norm(st.value)))
                 elif isinstance(st, ast.Assign) and isinstance(st.targets[0], ast.Subscript):
                     # g[2*(i-h)] / g[2*(i-h)+1] = 1
                     idx = st.targets[0].slice
                     slot = None
                     try:
-                        v0 = ev(idx, {ivar: 3, 'h': 1})
-                        v1 = ev(idx, {ivar: 5, 'h': 2})
+                        v0 = ev(idx, {ivar: 3, H: 1})
+                        v1 = ev(idx, {ivar: 5, H: 2})
                         if (v0, v1) == (4, 6):
                             slot = 'x'
                         elif (v0, v1) == (5, 7):
@@ -181,6 +187,26 @@ def reader_table(f):
                     effs.append(('bit', slot, ev(st.value, {}) if isinstance(st.value, ast.Constant) else None))
         out[tok] = tuple(effs)
     return out
+
+
+def reader_roles(f):
+    """Names of the parser's locals by role: g (string), p (phase), h (count of non-qubit positions), from the
+    returned Pauli(g[: -2*h], p)."""
+    roles = {}
+    for st, ctx in walk(f.node):
+        if isinstance(st, ast.Return) and isinstance(st.value, ast.Call) and norm(st.value.func) == 'Pauli' and len(st.value.args) == 2:
+            a0, a1 = st.value.args
+            if isinstance(a1, ast.Name):
+                roles['p'] = a1.id
+            if isinstance(a0, ast.Name):
+                roles['g'] = a0.id
+            elif isinstance(a0, ast.Subscript) and isinstance(a0.value, ast.Name):
+                roles['g'] = a0.value.id
+                if isinstance(a0.slice, ast.Slice) and a0.slice.upper is not None:
+                    ns = [n.id for n in ast.walk(a0.slice.upper) if isinstance(n, ast.Name)]
+                    if len(ns) == 1:
+                        roles['h'] = ns[0]
+    return roles
 
 
 def fold_prefix(table, prefix):
